@@ -403,7 +403,7 @@ Emit == Done =>
       hit == IF Compiled(cf) = Expected THEN {} ELSE {d \in KnownDevs : Compiled(CodeRun({d})) # Expected}
   IN PrintT(<< "REPLAY", ToJson([prog |-> prog, expect |-> Expected, code |-> Compiled(cf),
                                  devs |-> SetToSeq(hit), clean |-> ctx[1].cl,
-                                 fault |-> IF ill < 0 THEN 0 - ill ELSE 0,
+                                 fault |-> IF ill < 0 THEN 0 - ill ELSE 0, npre |-> Len(Prelude),
                                  at |-> IF cf.res.k = "fail" THEN cf.res.at ELSE 0,
                                  prefix |-> [k \in 1..(Len(prog) - 1) |-> AbsOut(Run(SubSeq(prog, 1, k)))],
                                  ops |-> [j \in 1..Len(vm.code) |-> OpView(vm.code[j])],
